@@ -191,6 +191,11 @@ impl TransactionBuilder {
           });
         }
       }
+    } else if let Target::Value(Amount::ZERO) | Target::ExactPostage(Amount::ZERO) = self.target {
+      return Err(Error::Dust {
+        output_value: Amount::ZERO,
+        dust_value: Amount::from_sat(1),
+      });
     }
 
     self
